@@ -121,8 +121,8 @@ class Injector:
         """-> kind or None for the engine API call number `index`"""
         if self.plan is None or self.suppress:
             return None
-        if self.in_change or self.in_kids:
-            self.excluded_calls["update_kids" if self.in_kids else "change"] += 1
+        if self.in_kids:
+            self.excluded_calls["update_kids"] += 1
             if not self.plan.get("unrestricted"):
                 return None
         rel = index - self.plan_base
